@@ -21,14 +21,97 @@ def is_mailbox_next(t):
     return PAYLOAD + "<" in tys
 
 
+def mailbox_rx_captures(fx, f):
+    """indices of the captures of closure / coroutine f through which it owns the receiving end of a mailbox queue
+    (`mpsc::Receiver<Payload<A>>` / `UnboundedReceiver<..>`), whatever it is wrapped in (a poll_fn closure, a boxed
+    `dyn Stream`, a newtype): read off the extractor's ownership closure of the coroutine"""
+    import re as _re
+    out = set()
+    for o in fx.owns:
+        if o["def"] != f["def"]:
+            continue
+        for a in o["atoms"]:
+            if _re.match(r"futures_channel::mpsc::(Unbounded)?Receiver<" + _re.escape(PAYLOAD) + "<", a["ty"]):
+                for pth in a["paths"]:
+                    m = _re.search(r"\]\.cap(\d+)", pth)
+                    if m:
+                        out.add(int(m.group(1)))
+    return sorted(out)
+
+
 def is_stream_next(t):
     c = t.get("callee") or ""
     return c.endswith(DEQUEUE_SUFFIX) and not is_mailbox_next(t)
 
 
+_TASK_TRAIT = [None]  # (trait def, method) when Payload::Task holds a boxed crate-local trait object (bound per facts)
+
+
+def bind(fx):
+    """facts of the configuration being checked: lets the pure call predicates know the crate-local vocabulary"""
+    _TASK_TRAIT[0] = task_trait(fx)
+
+
+def task_trait(fx):
+    """(trait, method) if the task of a Payload::Task is a `Box<dyn LocalTrait<A>>` whose every implementation does nothing
+    but call the closure it is implemented for with the (actor, ctx) it is given — `trait Task<A> { fn run(self: Box<Self>,
+    &mut A, &mut Context<A>) -> TaskFuture }` with a blanket impl for the old closure type; None otherwise"""
+    cache = fx.__dict__.setdefault("_task_trait", {})
+    if "v" in cache:
+        return cache["v"]
+    cache["v"] = None
+    import re as _re
+    pa = fx.adts.get(PAYLOAD)
+    task = [v for v in (pa or {}).get("variants", []) if v["name"] == "Task"]
+    ty = task[0]["fields"][0]["ty"] if task and task[0]["fields"] else ""
+    for _ in range(3):
+        inner = fx.adts.get(ty.split("<")[0])
+        if inner and len(inner["variants"]) == 1 and len(inner["variants"][0]["fields"]) == 1:
+            ty = inner["variants"][0]["fields"][0]["ty"]
+        else:
+            break
+    m = _re.match(r"alloc::boxed::Box<dyn ([\w:]+)<", ty)
+    if not m or m.group(1) not in {tr["def"] for tr in fx.d["traits"]}:
+        return None
+    tr = m.group(1)
+    impls = [g for g in fx.d["fns"] if g.get("impl_trait_def") == tr and g["kind"] == "assoc_fn"]
+    names = {g["def"].split("::")[-1] for g in impls}
+    if not impls or len(names) != 1:
+        return None
+    for g in impls:
+        gb = Body(g)
+        calls = [(bi, ct) for bi, ct in gb.normal_calls()]
+        inv = [(bi, ct) for bi, ct in calls if (ct.get("callee") or "").endswith(("FnOnce::call_once", "FnMut::call_mut", "Fn::call"))]
+        if len(inv) != 1 or len(calls) != 1 or len(inv[0][1]["args"]) != 2:
+            return None
+        bi, ct = inv[0]
+        recv = gb.origins(ct["args"][0])
+        if not (recv and all(o.kind == "arg" and o.site == 1 for o in recv)):
+            return None
+        sites = []
+        for j in (0, 1):
+            a = ct["args"][1]
+            if a.get("k") not in ("move", "copy"):
+                return None
+            os_ = gb.origins(list(a["p"]) + ["f%d" % j])
+            if not (os_ and all(o.kind == "arg" and all(e == "*" for e in o.proj) for o in os_) and len({o.site for o in os_}) == 1):
+                return None
+            sites.append(next(iter(os_)).site)
+        if sites != [2, 3]:
+            return None
+        ret = gb.origins([0])
+        if not (ret and all(o.kind == "call" and o.site == (bi,) and not o.proj for o in ret)):
+            return None
+    cache["v"] = (tr, next(iter(names)))
+    return cache["v"]
+
+
 def is_task_invoke(t):
-    """FnOnce::call_once on the boxed task of a Payload::Task"""
+    """FnOnce::call_once on the boxed task of a Payload::Task (or the forwarding method of the crate-local task trait)"""
     c = t.get("callee") or ""
+    tt = _TASK_TRAIT[0]
+    if tt and t.get("trait") == tt[0] and c.endswith("::" + tt[1]) and "dyn " + tt[0] in " ".join(t.get("argtys", [])[:1]):
+        return True
     if not (c.endswith("FnOnce::call_once") or c.endswith("FnMut::call_mut") or c.endswith("Fn::call")):
         return False
     tys = " ".join(t.get("argtys", []))
@@ -42,7 +125,7 @@ def task_invokes(fx, b):
     A = Alphabet(calls=[("task", is_task_invoke)])
     for bi, t in b.normal_calls():
         if is_task_invoke(t):
-            out.append((bi, t, t["argtys"][1:] == ["(&mut A, &mut context::Context<A>)"]))
+            out.append((bi, t, t["argtys"][1:] in (["(&mut A, &mut context::Context<A>)"], ["&mut A", "&mut context::Context<A>"])))
         elif t.get("callee_local") and t.get("callee") and A.wrapper_label(fx, t.get("resolved") or t["callee"]) == "task":
             out.append((bi, t, t["argtys"][1:] == ["&mut A", "&mut context::Context<A>"]))
     return out
@@ -189,6 +272,40 @@ def pair_helpers(fx):
         os_ = b.origins([0])
         if os_ and all(o.kind == "call" and not o.proj and (b.call_at(o).get("resolved") or b.call_at(o).get("callee")) in makers for o in os_):
             out[f["def"]] = sorted({(b.call_at(o).get("resolved") or b.call_at(o).get("callee")) for o in os_})[0]
+    return out
+
+
+def maker_params(fx, what="actor", kinds=None):
+    """{loop constructor def: (argument index, field path)}: where the constructor of each event loop receives the actor
+    (the value `started` is called on in the loop) or the attached stream — read off the loop coroutine's captures, so a
+    constructor `EventLoop::run(self)` whose actor is a field of `self` is described as (0, (f0,))"""
+    from props.c15 import roots
+    out = {}
+    for f, k in find_loops(fx):
+        if kinds and k not in kinds:
+            continue
+        b = Body(f)
+        ups = set()
+        if what == "actor":
+            for _bi, t in b.normal_calls():
+                if t.get("trait") == T_ACTOR and (t.get("callee") or "").endswith("::started") and t["args"]:
+                    ups |= {(o.site, tuple(o.proj)) for o in roots(b, t["args"][0]) if o.kind == "upvar"}
+        else:
+            for i, u in enumerate(f.get("upvars", [])):
+                if u in ("S", "T"):
+                    ups.add((i, ()))
+        parent = fx.fn(f["parent"])
+        if parent is None or len(ups) != 1:
+            continue
+        (k_up, up_proj) = next(iter(ups))
+        pb = Body(parent)
+        for blk in pb.blocks:
+            for st in blk["s"] if not blk["c"] else []:
+                if st["k"] == "assign" and st["r"]["k"] == "agg" and st["r"].get("ak") == "coroutine" and st["r"].get("def") == f["def"] and k_up < len(st["r"]["ops"]):
+                    os_ = pb.origins(st["r"]["ops"][k_up])
+                    if os_ and all(o.kind == "arg" for o in os_) and len({(o.site, tuple(o.proj)) for o in os_}) == 1:
+                        o = next(iter(os_))
+                        out[parent["def"]] = (o.site - 1, tuple(o.proj) + tuple(up_proj))
     return out
 
 
